@@ -136,7 +136,7 @@ def check(prop, tier, jobs=16, only=None, seed=None, verbose=True):
     # wall budget of the whole run: shards that cannot start in time are reported as SKIPPED (= not explored,
     # listed as inconclusive), so that a tier always ends in bounded time. Shards are interleaved across the
     # conditions so that every condition gets its share of the budget.
-    budget = float(os.environ.get("VF_MAX_WALL", "1500" if tier == "thorough" else "1200"))
+    budget = float(os.environ.get("VF_MAX_WALL", "1000" if tier == "thorough" else "1200"))
     deadline = t_start + budget
     tasks = []
     for c in conds:
